@@ -759,9 +759,14 @@ fn check_case(sb: &Sandbox, opts: &Opts, idx: usize, case: &Case, per_op: usize,
                             continue;
                         }
                         let picked: Vec<(String, usize)> = if enumerate { fields } else { vec![p.pick(&fields).clone()] };
+                        let mut budget = 600usize;
                         for (ptr, n) in picked {
                             let ch = ['\u{e9}', '\u{4e2d}', '\u{1f600}'][p.usize(3)];
                             for at in 0..n {
+                                if budget == 0 {
+                                    break;
+                                }
+                                budget -= 1;
                                 plans.push(FaultPlan { store: StoreFault::FieldChar { path: path.clone(), pointer: ptr.clone(), at, ch }, spec: clean_spec.clone() });
                             }
                         }
